@@ -168,10 +168,6 @@ cached; `specCulture` is the property's reading of a culture string (language ta
 `none` = "any other code"). The property demands `route … (specCulture …)`: the model of the denoted culture
 when the recogniser has one, else English with fallback and ValueError without. -/
 
-theorem route_registered (cfg : Cfg) (kind : Nat) (t cs : Str) (fb : Bool) (o : Int)
-    (h : (t, cs) ∈ cfg.regs kind) : route cfg kind t (some cs) fb o = .ok ⟨kind, t, cs, o⟩ := by
-  simp [route, h]
-
 /-- **no_model_falls_back.** A request whose culture the recogniser has no model for — unsupported, "other"
 (`none`), or supported but unregistered such as ko-kr, tr-tr, en-* — gets the English model when fallback is
 on (the object `True`) and ValueError otherwise. -/
@@ -306,28 +302,6 @@ theorem wrapper_plain_passes_through (cfg : Cfg) (c : Option Str) : wrapCulture 
   cases c <;> simp [wrapCulture]
 
 /-! ## The cache -/
-
-/-- What an operation is answered when it is the only one ever made (empty cache), object identity erased. -/
-def coldAnswer (cfg : Cfg) (op : Op) : OutE := (step cfg State.init op).2.erase
-
-/-- Every request of the operation asks for a model type that only the asking recogniser's kind registers. -/
-def OwnType (cfg : Cfg) (op : Op) : Prop := ∀ k t c fb o, request cfg op = some (k, t, c, fb, o) → Owned cfg k t
-
-theorem step_erase_of_no_request (cfg : Cfg) (st st' : State) (op : Op) (h : request cfg op = none) :
-    (step cfg st op).2 = (step cfg st' op).2 := by
-  cases op <;> simp [request] at h <;> simp [step] <;> split <;> rfl
-
-/-- In any state satisfying the invariant an operation on own model types is answered as if it were alone. -/
-theorem step_transparent (cfg : Cfg) (st : State) (h : Inv cfg st) (op : Op) (hown : OwnType cfg op) :
-    (step cfg st op).2.erase = coldAnswer cfg op := by
-  unfold coldAnswer
-  cases hreq : request cfg op with
-  | none => rw [step_erase_of_no_request cfg st State.init op hreq]
-  | some q =>
-    obtain ⟨k, t, c, fb, o⟩ := q
-    have a := (step_spec cfg st op h).2.2.2 k t c fb o hreq
-    have b := (step_spec cfg State.init op (inv_init cfg)).2.2.2 k t c fb o hreq
-    rw [a.2 (hown k t c fb o hreq), b.2 (hown k t c fb o hreq)]
 
 theorem mem_zip_of_mem_outs {α β} (l₁ : List α) (l₂ : List β) (hl : l₂.length = l₁.length) (b : β) (hb : b ∈ l₂) :
     ∃ a, (a, b) ∈ l₁.zip l₂ := by
